@@ -249,3 +249,546 @@ Proof.
 Qed.
 
 End WalkGen.
+
+(** * Part B: counting level-assignments *)
+
+(** [f] does not look at level [l] *)
+Definition indep (f : lasg -> bool) (l : nat) : Prop := forall a b, f (updb a l b) = f a.
+
+Lemma cnt_ext : forall k l f g, (forall a, f a = g a) -> cnt k l f = cnt k l g.
+Proof.
+  induction k as [|k IH]; intros l f g Hfg; simpl.
+  - rewrite Hfg. reflexivity.
+  - rewrite (IH (S l) (fun a => f (updb a l true)) (fun a => g (updb a l true))) by (intros; apply Hfg).
+    rewrite (IH (S l) (fun a => f (updb a l false)) (fun a => g (updb a l false))) by (intros; apply Hfg).
+    reflexivity.
+Qed.
+
+Lemma cnt_indep : forall k l f, indep f l -> (cnt (S k) l f = 2 * cnt k (S l) f)%N.
+Proof.
+  intros k l f Hi. simpl.
+  rewrite (cnt_ext k (S l) (fun a => f (updb a l true)) f) by (intros; apply Hi).
+  rewrite (cnt_ext k (S l) (fun a => f (updb a l false)) f) by (intros; apply Hi).
+  lia.
+Qed.
+
+Lemma pow2_S : forall j, (2 ^ N.of_nat (S j) = 2 * 2 ^ N.of_nat j)%N.
+Proof. intros j. rewrite Nat2N.inj_succ, N.pow_succ_r'. reflexivity. Qed.
+
+Lemma pow2_add : forall a b, (2 ^ N.of_nat (a + b) = 2 ^ N.of_nat a * 2 ^ N.of_nat b)%N.
+Proof. intros a b. rewrite Nat2N.inj_add, N.pow_add_r. reflexivity. Qed.
+
+Lemma pow2_pos : forall k, (0 < 2 ^ k)%N.
+Proof. intros k. apply N.neq_0_lt_0. apply N.pow_nonzero. discriminate. Qed.
+
+(** levels the function does not look at double the count *)
+Lemma cnt_skip : forall j k l f, (forall i, l <= i < l + j -> indep f i) ->
+  (cnt (j + k) l f = 2 ^ N.of_nat j * cnt k (l + j) f)%N.
+Proof.
+  induction j as [|j IH]; intros k l f Hi.
+  - simpl plus. rewrite Nat.add_0_r. change (N.of_nat 0) with 0%N. rewrite N.pow_0_r. lia.
+  - change (S j + k) with (S (j + k)). rewrite cnt_indep by (apply Hi; lia).
+    rewrite (IH k (S l) f) by (intros i Hr; apply Hi; lia).
+    replace (l + S j) with (S l + j) by lia. rewrite pow2_S. lia.
+Qed.
+
+Lemma cnt_const : forall k l b, cnt k l (fun _ => b) = if b then (2 ^ N.of_nat k)%N else 0%N.
+Proof.
+  induction k as [|k IH]; intros l b.
+  - simpl. destruct b; reflexivity.
+  - change (cnt (S k) l (fun _ => b)) with (cnt k (S l) (fun _ => b) + cnt k (S l) (fun _ => b))%N.
+    rewrite IH, pow2_S. destruct b; lia.
+Qed.
+
+Lemma cnt_le : forall k l f, (cnt k l f <= 2 ^ N.of_nat k)%N.
+Proof.
+  induction k as [|k IH]; intros l f.
+  - simpl. destruct (f _); change (2 ^ N.of_nat 0)%N with 1%N; lia.
+  - change (cnt (S k) l f) with
+      (cnt k (S l) (fun a => f (updb a l true)) + cnt k (S l) (fun a => f (updb a l false)))%N.
+    pose proof (IH (S l) (fun a => f (updb a l true))).
+    pose proof (IH (S l) (fun a => f (updb a l false))).
+    rewrite pow2_S. lia.
+Qed.
+
+(** a level that must be false does not contribute *)
+Lemma cnt_lo : forall k l f g, indep g l -> (forall a, f a = negb (a l) && g a) ->
+  cnt (S k) l f = cnt k (S l) g.
+Proof.
+  intros k l f g Hi Hf.
+  change (cnt (S k) l f) with
+    (cnt k (S l) (fun a => f (updb a l true)) + cnt k (S l) (fun a => f (updb a l false)))%N.
+  rewrite (cnt_ext k (S l) (fun a => f (updb a l true)) (fun _ => false)).
+  2:{ intros a. rewrite Hf. unfold updb at 1. rewrite Nat.eqb_refl. reflexivity. }
+  rewrite (cnt_ext k (S l) (fun a => f (updb a l false)) g).
+  2:{ intros a. rewrite Hf. unfold updb at 1. rewrite Nat.eqb_refl. simpl. apply Hi. }
+  rewrite cnt_const. lia.
+Qed.
+
+Lemma updb_same : forall a l b, updb a l b l = b.
+Proof. intros. unfold updb. rewrite Nat.eqb_refl. reflexivity. Qed.
+
+Lemma updb_other : forall a l b x, x <> l -> updb a l b x = a x.
+Proof. intros a l b x Hx. unfold updb. destruct (Nat.eqb_spec x l); [contradiction | reflexivity]. Qed.
+
+Lemma choice_of_lt : forall a l, choice_of a l < 2.
+Proof. intros a l. unfold choice_of. destruct (a l); lia. Qed.
+
+Lemma choice_of_ok : forall s a, choice_ok s (choice_of a).
+Proof. intros s a l. pose proof (choice_of_lt a l). destruct (s_kind s); simpl; lia. Qed.
+
+Lemma choice_of_updb_other : forall a l b x, x <> l -> choice_of (updb a l b) x = choice_of a x.
+Proof. intros. unfold choice_of. rewrite updb_other by assumption. reflexivity. Qed.
+
+Lemma choice_of_updb_same : forall a l b, choice_of (updb a l b) l = if b then 0 else 1.
+Proof. intros. unfold choice_of. rewrite updb_same. reflexivity. Qed.
+
+(** * Part C: exact counts *)
+
+(** ** BDD *)
+
+From OxiVerif Require Import DD.Canon.
+
+Section SatBdd.
+Variable s : snap.
+Hypothesis H : WF s.
+Hypothesis Hkind : s_kind s = KBdd.
+Variable vars : nat.
+Hypothesis Hvars : nlevels s <= vars.
+
+Let n := nlevels s.
+Let K : N := (2 ^ N.of_nat (vars - n))%N.
+
+Lemma bdd_binary : binary (s_kind s).
+Proof. unfold binary. rewrite Hkind. discriminate. Qed.
+
+Lemma sat_bdd_T : forall f t, sat_bdd s f vars (RT t) =
+  match term_val s t with
+  | Some v => Some (if N.eqb v 1 then 2 ^ N.of_nat vars else 0)%N
+  | None => None
+  end.
+Proof. intros. unfold sat_bdd. rewrite walk_T. reflexivity. Qed.
+
+(** the recursion equation: (then + else) / 2 *)
+Lemma sat_bdd_node : forall f id nd e0 e1,
+  find_node s id = Some nd -> nchildren nd = [e0; e1] ->
+  sat_bdd s (S f) vars (RN id) =
+  match sat_bdd s f vars (eref e0), sat_bdd s f vars (eref e1) with
+  | Some a, Some b => Some ((a + b) / 2)%N
+  | _, _ => None
+  end.
+Proof.
+  intros f id nd e0 e1 E Hc. unfold sat_bdd.
+  rewrite (walk_node _ s f id false nd e0 e1 E Hc). simpl sc_tag.
+  destruct (walk _ s f (eref e0) false); [|reflexivity].
+  destruct (walk _ s f (eref e1) false); reflexivity.
+Qed.
+
+(** [fun_bdd] does not look at the levels above the reference *)
+Lemma fun_bdd_indep : forall r i, i < rlevel s r -> indep (fun_bdd s r) i.
+Proof.
+  intros r i Hi a b. unfold fun_bdd. f_equal. apply (semk_ext s H). intros l Hl.
+  apply choice_of_updb_other. lia.
+Qed.
+
+(** fixing the node's level selects the child *)
+Lemma fun_bdd_child : forall id nd e0 e1 a b,
+  find_node s id = Some nd -> nchildren nd = [e0; e1] ->
+  fun_bdd s (RN id) (updb a (nlevel nd) b) = fun_bdd s (eref (if b then e0 else e1)) a.
+Proof.
+  intros id nd e0 e1 a b E Hc. unfold fun_bdd. f_equal.
+  set (i := if b then 0 else 1).
+  assert (Hn : nth_error (nchildren nd) i = Some (if b then e0 else e1))
+    by (rewrite Hc; unfold i; destruct b; reflexivity).
+  pose proof (child_sem s H id nd i _ (choice_of a) E Hn) as Hs. unfold semn in Hs.
+  rewrite Hs. apply (semk_ext s H). intros l Hl. unfold upd.
+  destruct (Nat.eqb_spec l (nlevel nd)) as [->|Hne].
+  - rewrite choice_of_updb_same. unfold i. destruct b; reflexivity.
+  - apply choice_of_updb_other. exact Hne.
+Qed.
+
+(** number of satisfying assignments of the levels [l, n) *)
+Definition Cb (l : nat) (r : ref) : N := cnt (n - l) l (fun_bdd s r).
+
+Lemma Cb_total : forall l r, l <= rlevel s r ->
+  (count_levels n (fun_bdd s r) = 2 ^ N.of_nat l * Cb l r)%N.
+Proof.
+  intros l r Hl. pose proof (rlevel_le s H r) as Hle. fold n in Hle.
+  unfold count_levels, Cb. replace n with (l + (n - l)) at 1 by lia.
+  rewrite cnt_skip by (intros i Hi; apply fun_bdd_indep; lia). reflexivity.
+Qed.
+
+Lemma Cb_node : forall id nd e0 e1, find_node s id = Some nd -> nchildren nd = [e0; e1] ->
+  (Cb (nlevel nd) (RN id) = Cb (S (nlevel nd)) (eref e0) + Cb (S (nlevel nd)) (eref e1))%N.
+Proof.
+  intros id nd e0 e1 E Hc. pose proof (wf_level s H id nd E) as Hl. fold n in Hl.
+  unfold Cb. replace (n - nlevel nd) with (S (n - S (nlevel nd))) by lia.
+  change (cnt (S (n - S (nlevel nd))) (nlevel nd) (fun_bdd s (RN id))) with
+    (cnt (n - S (nlevel nd)) (S (nlevel nd)) (fun a => fun_bdd s (RN id) (updb a (nlevel nd) true)) +
+     cnt (n - S (nlevel nd)) (S (nlevel nd)) (fun a => fun_bdd s (RN id) (updb a (nlevel nd) false)))%N.
+  rewrite (cnt_ext _ _ (fun a => fun_bdd s (RN id) (updb a (nlevel nd) true)) (fun_bdd s (eref e0)))
+    by (intros a; apply (fun_bdd_child id nd e0 e1 a true E Hc)).
+  rewrite (cnt_ext _ _ (fun a => fun_bdd s (RN id) (updb a (nlevel nd) false)) (fun_bdd s (eref e1)))
+    by (intros a; apply (fun_bdd_child id nd e0 e1 a false E Hc)).
+  reflexivity.
+Qed.
+
+Lemma node_children_ok : forall id nd e0 e1, find_node s id = Some nd -> nchildren nd = [e0; e1] ->
+  (ref_ok s (eref e0) /\ nlevel nd < rlevel s (eref e0)) /\
+  (ref_ok s (eref e1) /\ nlevel nd < rlevel s (eref e1)).
+Proof.
+  intros id nd e0 e1 E Hc. split; apply (wf_child s H id nd _ E); rewrite Hc; simpl; auto.
+Qed.
+
+(** the total count of a node is the mean of its children's *)
+Lemma total_node : forall id nd e0 e1, find_node s id = Some nd -> nchildren nd = [e0; e1] ->
+  (count_levels n (fun_bdd s (eref e0)) + count_levels n (fun_bdd s (eref e1)) =
+   2 * count_levels n (fun_bdd s (RN id)))%N.
+Proof.
+  intros id nd e0 e1 E Hc.
+  destruct (node_children_ok id nd e0 e1 E Hc) as [[O0 L0] [O1 L1]].
+  rewrite (Cb_total (S (nlevel nd)) (eref e0)) by lia.
+  rewrite (Cb_total (S (nlevel nd)) (eref e1)) by lia.
+  rewrite (Cb_total (nlevel nd) (RN id)) by (rewrite (rlevel_node s id nd E); lia).
+  rewrite (Cb_node id nd e0 e1 E Hc), pow2_S. lia.
+Qed.
+
+Lemma K_vars : (K * 2 ^ N.of_nat n = 2 ^ N.of_nat vars)%N.
+Proof. unfold K. rewrite <- pow2_add. f_equal. f_equal. lia. Qed.
+
+Lemma sat_bdd_main : forall f r, ref_ok s r -> n - rlevel s r < f ->
+  sat_bdd s f vars r = Some (K * count_levels n (fun_bdd s r))%N.
+Proof.
+  induction f as [|f IH]; intros r Hok Hf; [lia|].
+  destruct r as [t|id].
+  - rewrite sat_bdd_T. destruct Hok as [v Ev]. rewrite Ev. f_equal.
+    unfold count_levels.
+    rewrite (cnt_ext n 0 (fun_bdd s (RT t)) (fun _ => N.eqb v 1)).
+    2:{ intros a. unfold fun_bdd. rewrite semk_T, Ev. reflexivity. }
+    rewrite cnt_const. destruct (N.eqb v 1); [symmetry; apply K_vars | lia].
+  - destruct Hok as [nd E]. rewrite (rlevel_node s id nd E) in Hf.
+    destruct (two_children s id nd H bdd_binary E) as [e0 [e1 Hc]].
+    destruct (node_children_ok id nd e0 e1 E Hc) as [[O0 L0] [O1 L1]].
+    pose proof (rlevel_le s H (eref e0)) as B0. pose proof (rlevel_le s H (eref e1)) as B1.
+    fold n in B0, B1.
+    rewrite (sat_bdd_node f id nd e0 e1 E Hc).
+    rewrite (IH (eref e0) O0), (IH (eref e1) O1) by lia. f_equal.
+    rewrite <- N.mul_add_distr_l, (total_node id nd e0 e1 E Hc).
+    replace (K * (2 * count_levels n (fun_bdd s (RN id))))%N
+      with (K * count_levels n (fun_bdd s (RN id)) * 2)%N by lia.
+    apply N.div_mul. discriminate.
+Qed.
+
+
+(** model counting on BDDs is exact *)
+Theorem sat_bdd_correct_sec : forall r, ref_ok s r ->
+  sat_bdd s (S n) vars r =
+  Some (2 ^ N.of_nat (vars - n) * count_levels n (fun_bdd s r))%N.
+Proof. intros r Hok. apply sat_bdd_main; [exact Hok | lia]. Qed.
+
+(** the value of a reference of level [l] is a multiple of [2^(vars - n + l)]:
+    only the [n - l] levels below it can lower the power of two *)
+Theorem sat_bdd_divisible_sec : forall r, ref_ok s r ->
+  sat_bdd s (S n) vars r =
+  Some (2 ^ N.of_nat (vars - n + rlevel s r) * Cb (rlevel s r) r)%N.
+Proof.
+  intros r Hok. rewrite (sat_bdd_correct_sec r Hok). f_equal.
+  rewrite (Cb_total (rlevel s r) r (le_n _)), pow2_add. lia.
+Qed.
+
+(** every halving [(a + b) >> 1] of the recursion is exact *)
+Theorem sat_bdd_halving_exact_sec : forall id nd e0 e1 a b,
+  find_node s id = Some nd -> nchildren nd = [e0; e1] ->
+  sat_bdd s (S n) vars (eref e0) = Some a -> sat_bdd s (S n) vars (eref e1) = Some b ->
+  ((a + b) mod 2 = 0 /\ sat_bdd s (S n) vars (RN id) = Some ((a + b) / 2) /\
+   2 * ((a + b) / 2) = a + b)%N.
+Proof.
+  intros id nd e0 e1 a b E Hc Ha Hb.
+  destruct (node_children_ok id nd e0 e1 E Hc) as [[O0 L0] [O1 L1]].
+  rewrite (sat_bdd_correct_sec _ O0) in Ha. rewrite (sat_bdd_correct_sec _ O1) in Hb.
+  inversion Ha; subst a. inversion Hb; subst b. clear Ha Hb.
+  assert (Hsum : (2 ^ N.of_nat (vars - n) * count_levels n (fun_bdd s (eref e0)) +
+                  2 ^ N.of_nat (vars - n) * count_levels n (fun_bdd s (eref e1)) =
+                  (2 ^ N.of_nat (vars - n) * count_levels n (fun_bdd s (RN id))) * 2)%N).
+  { rewrite <- N.mul_add_distr_l, (total_node id nd e0 e1 E Hc). lia. }
+  rewrite Hsum. split; [apply N.mod_mul; discriminate|].
+  rewrite N.div_mul by discriminate. split; [|lia].
+  apply sat_bdd_correct_sec. exists nd. exact E.
+Qed.
+
+(** the count never exceeds [2^vars] ... *)
+Lemma sat_bdd_le_sec : forall r v, ref_ok s r -> sat_bdd s (S n) vars r = Some v ->
+  (v <= 2 ^ N.of_nat vars)%N.
+Proof.
+  intros r v Hok Hv. rewrite (sat_bdd_correct_sec r Hok) in Hv. inversion Hv; subst v.
+  rewrite <- K_vars. unfold K. apply N.mul_le_mono_l. apply cnt_le.
+Qed.
+
+End SatBdd.
+
+Theorem sat_bdd_correct : forall s vars r, WF s -> s_kind s = KBdd -> nlevels s <= vars ->
+  ref_ok s r ->
+  sat_bdd s (S (nlevels s)) vars r =
+  Some (2 ^ N.of_nat (vars - nlevels s) * count_levels (nlevels s) (fun_bdd s r))%N.
+Proof. intros s vars r H Hk Hv Hok. apply sat_bdd_correct_sec; assumption. Qed.
+
+Theorem sat_bdd_divisible : forall s vars r, WF s -> s_kind s = KBdd -> nlevels s <= vars ->
+  ref_ok s r ->
+  sat_bdd s (S (nlevels s)) vars r =
+  Some (2 ^ N.of_nat (vars - nlevels s + rlevel s r) *
+        cnt (nlevels s - rlevel s r) (rlevel s r) (fun_bdd s r))%N.
+Proof. intros s vars r H Hk Hv Hok. apply sat_bdd_divisible_sec; assumption. Qed.
+
+Theorem sat_bdd_halving_exact : forall s vars id nd e0 e1 a b,
+  WF s -> s_kind s = KBdd -> nlevels s <= vars ->
+  find_node s id = Some nd -> nchildren nd = [e0; e1] ->
+  sat_bdd s (S (nlevels s)) vars (eref e0) = Some a ->
+  sat_bdd s (S (nlevels s)) vars (eref e1) = Some b ->
+  ((a + b) mod 2 = 0 /\ sat_bdd s (S (nlevels s)) vars (RN id) = Some ((a + b) / 2) /\
+   2 * ((a + b) / 2) = a + b)%N.
+Proof. intros s vars id nd e0 e1 a b H Hk Hv. apply sat_bdd_halving_exact_sec; assumption. Qed.
+
+Lemma sat_bdd_le : forall s vars r v, WF s -> s_kind s = KBdd -> nlevels s <= vars ->
+  ref_ok s r -> sat_bdd s (S (nlevels s)) vars r = Some v -> (v <= 2 ^ N.of_nat vars)%N.
+Proof. intros s vars r v H Hk Hv. apply sat_bdd_le_sec; assumption. Qed.
+
+Example ex_sat_bdd_wf : wf_b ex_sat_bdd = true.
+Proof. vm_compute. reflexivity. Qed.
+
+(* (x0 /\ x1) \/ x2: 5 models over 3 variables, 10 over 4 *)
+Example ex_sat_bdd_count :
+  sat_bdd ex_sat_bdd 4 3 (RN 4) = Some 5%N /\
+  sat_bdd ex_sat_bdd 4 4 (RN 4) = Some 10%N /\
+  count_levels 3 (fun_bdd ex_sat_bdd (RN 4)) = 5%N /\
+  sat_bdd ex_sat_bdd 4 3 (RT 0) = Some 0%N /\ sat_bdd ex_sat_bdd 4 3 (RT 1) = Some 8%N.
+Proof. vm_compute. repeat split; reflexivity. Qed.
+
+(* the cached run: same values; the shared node 2 (ref_count 2) is cached *)
+Example ex_sat_bdd_cached :
+  match sat_bdd_c ex_sat_bdd 4 3 false (RN 4) (PositiveMap.empty N) with
+  | Some (v, m) => v = 5%N /\ PositiveMap.elements m = [(2%positive, 4%N)]
+  | None => False
+  end.
+Proof. vm_compute. split; reflexivity. Qed.
+
+(** ** BCDD *)
+
+From OxiVerif Require Import DD.CanonBcdd.
+
+Lemma semc_retag : forall s f x t c,
+  semc s f (mkEdge (eref x) (xorb t (etag x))) c = option_map (xorb t) (semc s f x c).
+Proof.
+  intros s f x t c. destruct (eref x) as [u|id] eqn:Er.
+  - rewrite (semc_T s f _ c u) by reflexivity. rewrite (semc_T s f x c u Er). simpl.
+    destruct t, (etag x); reflexivity.
+  - destruct f as [|f].
+    + rewrite (semc_O s _ c id) by reflexivity. rewrite (semc_O s x c id Er). reflexivity.
+    + rewrite (semc_S s f _ c id) by reflexivity. rewrite (semc_S s f x c id Er).
+      destruct (find_node s id) as [nd|]; [|reflexivity].
+      destruct (nth_error (nchildren nd) (c (nlevel nd))) as [e'|]; [|reflexivity].
+      destruct (semc s f e' c) as [b|]; [|reflexivity]. simpl.
+      destruct t, (etag x), b; reflexivity.
+Qed.
+
+Section SatBcdd.
+Variable s : snap.
+Hypothesis H : WF s.
+Hypothesis Hkind : s_kind s = KBcdd.
+Variable vars : nat.
+Hypothesis Hvars : nlevels s <= vars.
+
+Let n := nlevels s.
+Let K : N := (2 ^ N.of_nat (vars - n))%N.
+
+Lemma bcdd_binary : binary (s_kind s).
+Proof. unfold binary. rewrite Hkind. discriminate. Qed.
+
+(** the function of the edge (r, tag) *)
+Definition Fc (r : ref) (tag : bool) : lasg -> bool := fun_bcdd s (mkEdge r tag).
+
+Definition walk_c (f : nat) (r : ref) (tag : bool) : option N :=
+  walk (bcdd_scheme exact_ops (2 ^ N.of_nat vars)%N) s f r tag.
+
+Lemma sat_bcdd_walk : forall f e, sat_bcdd s f vars e = walk_c f (eref e) (etag e).
+Proof. reflexivity. Qed.
+
+Lemma walk_c_T : forall f t tag,
+  walk_c f (RT t) tag = Some (if tag then 0 else 2 ^ N.of_nat vars)%N.
+Proof. intros. unfold walk_c. rewrite walk_T. reflexivity. Qed.
+
+(** the recursion equation: cofactors carry the incoming tag *)
+Lemma walk_c_node : forall f id tag nd e0 e1,
+  find_node s id = Some nd -> nchildren nd = [e0; e1] ->
+  walk_c (S f) (RN id) tag =
+  match walk_c f (eref e0) (xorb tag (etag e0)), walk_c f (eref e1) (xorb tag (etag e1)) with
+  | Some a, Some b => Some ((a + b) / 2)%N
+  | _, _ => None
+  end.
+Proof.
+  intros f id tag nd e0 e1 E Hc. unfold walk_c.
+  rewrite (walk_node _ s f id tag nd e0 e1 E Hc). simpl sc_tag.
+  destruct (walk _ s f (eref e0) _); [|reflexivity].
+  destruct (walk _ s f (eref e1) _); reflexivity.
+Qed.
+
+Lemma Fc_indep : forall r tag i, i < rlevel s r -> indep (Fc r tag) i.
+Proof.
+  intros r tag i Hi a b. unfold Fc, fun_bcdd. f_equal. apply (semc_ext s H). simpl eref.
+  intros l Hl. apply choice_of_updb_other. lia.
+Qed.
+
+Lemma Fc_child : forall id tag nd e0 e1 a b,
+  find_node s id = Some nd -> nchildren nd = [e0; e1] ->
+  Fc (RN id) tag (updb a (nlevel nd) b) =
+  Fc (eref (if b then e0 else e1)) (xorb tag (etag (if b then e0 else e1))) a.
+Proof.
+  intros id tag nd e0 e1 a b E Hc. unfold Fc, fun_bcdd. f_equal.
+  set (i := if b then 0 else 1). set (x := if b then e0 else e1).
+  assert (Hn : nth_error (nchildren nd) i = Some x)
+    by (rewrite Hc; unfold i, x; destruct b; reflexivity).
+  pose proof (child_semc s H (mkEdge (RN id) tag) id nd i x (choice_of a) eq_refl E Hn) as Hs.
+  unfold semcn in Hs. simpl etag in Hs.
+  rewrite semc_retag, <- Hs. apply (semc_ext s H). simpl eref. intros l Hl. unfold upd.
+  destruct (Nat.eqb_spec l (nlevel nd)) as [->|Hne].
+  - rewrite choice_of_updb_same. unfold i. destruct b; reflexivity.
+  - apply choice_of_updb_other. exact Hne.
+Qed.
+
+Definition Cc (l : nat) (r : ref) (tag : bool) : N := cnt (n - l) l (Fc r tag).
+
+Lemma Cc_total : forall l r tag, l <= rlevel s r ->
+  (count_levels n (Fc r tag) = 2 ^ N.of_nat l * Cc l r tag)%N.
+Proof.
+  intros l r tag Hl. pose proof (rlevel_le s H r) as Hle. fold n in Hle.
+  unfold count_levels, Cc. replace n with (l + (n - l)) at 1 by lia.
+  rewrite cnt_skip by (intros i Hi; apply Fc_indep; lia). reflexivity.
+Qed.
+
+Lemma Cc_node : forall id tag nd e0 e1, find_node s id = Some nd -> nchildren nd = [e0; e1] ->
+  (Cc (nlevel nd) (RN id) tag =
+   Cc (S (nlevel nd)) (eref e0) (xorb tag (etag e0)) + Cc (S (nlevel nd)) (eref e1) (xorb tag (etag e1)))%N.
+Proof.
+  intros id tag nd e0 e1 E Hc. pose proof (wf_level s H id nd E) as Hl. fold n in Hl.
+  unfold Cc. replace (n - nlevel nd) with (S (n - S (nlevel nd))) by lia.
+  change (cnt (S (n - S (nlevel nd))) (nlevel nd) (Fc (RN id) tag)) with
+    (cnt (n - S (nlevel nd)) (S (nlevel nd)) (fun a => Fc (RN id) tag (updb a (nlevel nd) true)) +
+     cnt (n - S (nlevel nd)) (S (nlevel nd)) (fun a => Fc (RN id) tag (updb a (nlevel nd) false)))%N.
+  rewrite (cnt_ext _ _ (fun a => Fc (RN id) tag (updb a (nlevel nd) true))
+             (Fc (eref e0) (xorb tag (etag e0))))
+    by (intros a; apply (Fc_child id tag nd e0 e1 a true E Hc)).
+  rewrite (cnt_ext _ _ (fun a => Fc (RN id) tag (updb a (nlevel nd) false))
+             (Fc (eref e1) (xorb tag (etag e1))))
+    by (intros a; apply (Fc_child id tag nd e0 e1 a false E Hc)).
+  reflexivity.
+Qed.
+
+Lemma node_children_ok_c : forall id nd e0 e1, find_node s id = Some nd -> nchildren nd = [e0; e1] ->
+  (ref_ok s (eref e0) /\ nlevel nd < rlevel s (eref e0)) /\
+  (ref_ok s (eref e1) /\ nlevel nd < rlevel s (eref e1)).
+Proof.
+  intros id nd e0 e1 E Hc. split; apply (wf_child s H id nd _ E); rewrite Hc; simpl; auto.
+Qed.
+
+Lemma total_node_c : forall id tag nd e0 e1, find_node s id = Some nd -> nchildren nd = [e0; e1] ->
+  (count_levels n (Fc (eref e0) (xorb tag (etag e0))) + count_levels n (Fc (eref e1) (xorb tag (etag e1))) =
+   2 * count_levels n (Fc (RN id) tag))%N.
+Proof.
+  intros id tag nd e0 e1 E Hc.
+  destruct (node_children_ok_c id nd e0 e1 E Hc) as [[O0 L0] [O1 L1]].
+  rewrite (Cc_total (S (nlevel nd)) (eref e0)) by lia.
+  rewrite (Cc_total (S (nlevel nd)) (eref e1)) by lia.
+  rewrite (Cc_total (nlevel nd) (RN id)) by (rewrite (rlevel_node s id nd E); lia).
+  rewrite (Cc_node id tag nd e0 e1 E Hc), pow2_S. lia.
+Qed.
+
+Lemma K_vars_c : (K * 2 ^ N.of_nat n = 2 ^ N.of_nat vars)%N.
+Proof. unfold K. rewrite <- pow2_add. f_equal. f_equal. lia. Qed.
+
+Lemma sat_bcdd_main : forall f r tag, ref_ok s r -> n - rlevel s r < f ->
+  walk_c f r tag = Some (K * count_levels n (Fc r tag))%N.
+Proof.
+  induction f as [|f IH]; intros r tag Hok Hf; [lia|].
+  destruct r as [t|id].
+  - rewrite walk_c_T. f_equal. unfold count_levels.
+    rewrite (cnt_ext n 0 (Fc (RT t) tag) (fun _ => negb tag)).
+    2:{ intros a. unfold Fc, fun_bcdd. rewrite (semc_T s _ _ _ t) by reflexivity. reflexivity. }
+    rewrite cnt_const. destruct tag; simpl; [lia | symmetry; apply K_vars_c].
+  - destruct Hok as [nd E]. rewrite (rlevel_node s id nd E) in Hf.
+    destruct (two_children s id nd H bcdd_binary E) as [e0 [e1 Hc]].
+    destruct (node_children_ok_c id nd e0 e1 E Hc) as [[O0 L0] [O1 L1]].
+    pose proof (rlevel_le s H (eref e0)) as B0. pose proof (rlevel_le s H (eref e1)) as B1.
+    fold n in B0, B1.
+    rewrite (walk_c_node f id tag nd e0 e1 E Hc).
+    rewrite (IH (eref e0) _ O0), (IH (eref e1) _ O1) by lia. f_equal.
+    rewrite <- N.mul_add_distr_l, (total_node_c id tag nd e0 e1 E Hc).
+    replace (K * (2 * count_levels n (Fc (RN id) tag)))%N
+      with (K * count_levels n (Fc (RN id) tag) * 2)%N by lia.
+    apply N.div_mul. discriminate.
+Qed.
+
+Theorem sat_bcdd_halving_exact_sec : forall id tag nd e0 e1 a b,
+  find_node s id = Some nd -> nchildren nd = [e0; e1] ->
+  walk_c (S n) (eref e0) (xorb tag (etag e0)) = Some a ->
+  walk_c (S n) (eref e1) (xorb tag (etag e1)) = Some b ->
+  ((a + b) mod 2 = 0 /\ walk_c (S n) (RN id) tag = Some ((a + b) / 2) /\
+   2 * ((a + b) / 2) = a + b)%N.
+Proof.
+  intros id tag nd e0 e1 a b E Hc Ha Hb.
+  destruct (node_children_ok_c id nd e0 e1 E Hc) as [[O0 L0] [O1 L1]].
+  rewrite (sat_bcdd_main _ _ _ O0) in Ha by lia. rewrite (sat_bcdd_main _ _ _ O1) in Hb by lia.
+  inversion Ha; subst a. inversion Hb; subst b. clear Ha Hb.
+  rewrite <- N.mul_add_distr_l, (total_node_c id tag nd e0 e1 E Hc).
+  replace (K * (2 * count_levels n (Fc (RN id) tag)))%N
+    with (K * count_levels n (Fc (RN id) tag) * 2)%N by lia.
+  split; [apply N.mod_mul; discriminate|].
+  rewrite N.div_mul by discriminate. split; [|lia].
+  apply sat_bcdd_main; [exists nd; exact E | lia].
+Qed.
+
+End SatBcdd.
+
+Lemma edge_eta : forall e, mkEdge (eref e) (etag e) = e.
+Proof. intros [r t]. reflexivity. Qed.
+
+Theorem sat_bcdd_correct : forall s vars e, WF s -> s_kind s = KBcdd -> nlevels s <= vars ->
+  ref_ok s (eref e) ->
+  sat_bcdd s (S (nlevels s)) vars e =
+  Some (2 ^ N.of_nat (vars - nlevels s) * count_levels (nlevels s) (fun_bcdd s e))%N.
+Proof.
+  intros s vars e H Hk Hv Hok. rewrite sat_bcdd_walk.
+  rewrite (sat_bcdd_main s H Hk vars Hv (S (nlevels s)) (eref e) (etag e) Hok) by lia.
+  unfold Fc. rewrite edge_eta. reflexivity.
+Qed.
+
+(** every halving of the BCDD recursion is exact: [a], [b] are the values of
+    the two cofactors of the edge (id, tag) *)
+Theorem sat_bcdd_halving_exact : forall s vars id tag nd e0 e1 a b,
+  WF s -> s_kind s = KBcdd -> nlevels s <= vars ->
+  find_node s id = Some nd -> nchildren nd = [e0; e1] ->
+  sat_bcdd s (S (nlevels s)) vars (mkEdge (eref e0) (xorb tag (etag e0))) = Some a ->
+  sat_bcdd s (S (nlevels s)) vars (mkEdge (eref e1) (xorb tag (etag e1))) = Some b ->
+  ((a + b) mod 2 = 0 /\ sat_bcdd s (S (nlevels s)) vars (mkEdge (RN id) tag) = Some ((a + b) / 2) /\
+   2 * ((a + b) / 2) = a + b)%N.
+Proof.
+  intros s vars id tag nd e0 e1 a b H Hk Hv E Hc Ha Hb.
+  apply (sat_bcdd_halving_exact_sec s H Hk vars Hv id tag nd e0 e1 a b E Hc Ha Hb).
+Qed.
+
+Example ex_sat_bcdd_ok : wf_full_b ex_sat_bcdd = true.
+Proof. vm_compute. reflexivity. Qed.
+
+Example ex_sat_bcdd_count :
+  sat_bcdd ex_sat_bcdd 4 3 (mkEdge (RN 4) false) = Some 5%N /\
+  sat_bcdd ex_sat_bcdd 4 3 (mkEdge (RN 4) true) = Some 3%N /\
+  sat_bcdd ex_sat_bcdd 4 4 (mkEdge (RN 4) false) = Some 10%N /\
+  count_levels 3 (fun_bcdd ex_sat_bcdd (mkEdge (RN 4) false)) = 5%N /\
+  count_levels 3 (fun_bcdd ex_sat_bcdd (mkEdge (RN 4) true)) = 3%N.
+Proof. vm_compute. repeat split; reflexivity. Qed.
+
+(* cache keys carry the tag: node 2 is cached once per polarity *)
+Example ex_sat_bcdd_cached :
+  match sat_bcdd_c ex_sat_bcdd 4 3 false (mkEdge (RN 4) true) (PositiveMap.empty N) with
+  | Some (v, m) => v = 3%N /\ PositiveMap.elements m = [(5%positive, 4%N)]
+  | None => False
+  end.
+Proof. vm_compute. split; reflexivity. Qed.
